@@ -8,11 +8,11 @@
 
 pub mod data;
 
-use data::{build_x, case_strategy, err_cases, orthonormal_rows, Case, ErrCase, Shape};
+use data::{build_x, case_strategy, err_cases, orthonormal_rows, Case, ErrCase, Layout, Shape};
 use linfa::traits::{Fit, Predict, Transformer};
 use linfa::DatasetBase;
 use linfa_reduction::Pca;
-use ndarray::Array2;
+use ndarray::{s, Array1, Array2, ArrayView2, ShapeBuilder};
 use vengine::gen::SplitMix;
 use vengine::num::{col_means, covariance, jacobi_eigh, Mat};
 use vengine::{enum_sub, prop_sub, Obs, Property, Tier};
@@ -34,6 +34,9 @@ pub const FRAMES: usize = 50;
 pub const RESID_MAX: f64 = TAU;
 /// Requested eigenvalues below DYN·λ₁ put a case into the "wide dynamic range" class (see check_pca).
 pub const DYN: f64 = 1e-4;
+/// A run of LOBPCG that is certifiably unconverged (but returns genuine Ritz pairs) is counted as not judged when it misses
+/// the optimality tolerances by at most this factor; beyond it the result is reported as a failure.
+pub const NOT_CONVERGED_SLACK: f64 = 10.0;
 /// Generated data have (n−1)·λ₁ (largest eigenvalue of Xc^T Xc) of order 1 or more; below SCALE_MIN (reachable only by
 /// shrinking towards constant data) a case is not judged: the solver's absolute stopping tolerance 1e-10 is then no tolerance at all.
 pub const SCALE_MIN: f64 = 1e-3;
@@ -42,6 +45,46 @@ pub const RANGE_MIN: f64 = 1e-6;
 
 fn to_array(x: &Mat, n: usize, p: usize) -> Array2<f64> {
     Array2::from_shape_fn((n, p), |(i, j)| x.get(i).and_then(|r| r.get(j)).copied().unwrap_or(0.0))
+}
+
+/// The record matrix in one of the memory layouts a caller can hand in. View layouts keep a backing array whose
+/// unused rows / columns hold large sentinel values, so that reading through the wrong strides shows.
+pub struct Records {
+    layout: Layout,
+    store: Array2<f64>,
+}
+
+impl Records {
+    pub fn new(x: &Mat, n: usize, p: usize, layout: Layout) -> Records {
+        let at = |i: usize, j: usize| x.get(i).and_then(|r| r.get(j)).copied().unwrap_or(0.0);
+        let filler = |i: usize, j: usize| 7.0e5 + (3 * i + j) as f64;
+        let store = match layout {
+            Layout::RowMajor => Array2::from_shape_fn((n, p), |(i, j)| at(i, j)),
+            Layout::ColMajor => Array2::from_shape_fn((n, p).f(), |(i, j)| at(i, j)),
+            Layout::StridedRows => Array2::from_shape_fn((2 * n, p), |(i, j)| if i % 2 == 0 { at(i / 2, j) } else { filler(i, j) }),
+            Layout::StridedCols => Array2::from_shape_fn((n, 2 * p), |(i, j)| if j % 2 == 0 { at(i, j / 2) } else { filler(i, j) }),
+            Layout::ReversedRows => Array2::from_shape_fn((n, p), |(i, j)| at(n - 1 - i, j)),
+            Layout::ReversedCols => Array2::from_shape_fn((n, p), |(i, j)| at(i, p - 1 - j)),
+        };
+        Records { layout, store }
+    }
+    /// n × p view of the records, element (i, j) = x[i][j] whatever the layout
+    pub fn view(&self) -> ArrayView2<'_, f64> {
+        match self.layout {
+            Layout::RowMajor | Layout::ColMajor => self.store.view(),
+            Layout::StridedRows => self.store.slice(s![..;2, ..]),
+            Layout::StridedCols => self.store.slice(s![.., ..;2]),
+            Layout::ReversedRows => self.store.slice(s![..;-1, ..]),
+            Layout::ReversedCols => self.store.slice(s![.., ..;-1]),
+        }
+    }
+    pub fn owned(&self) -> Option<&Array2<f64>> {
+        if self.layout.is_owned() {
+            Some(&self.store)
+        } else {
+            None
+        }
+    }
 }
 
 fn to_mat(a: &Array2<f64>) -> Mat {
@@ -104,6 +147,18 @@ fn classify(c: &Case, obs: &mut Obs) {
     obs.class_if(c.whiten, "whiten");
     obs.class_if(!c.whiten, "no_whiten");
     obs.class_if(c.n == c.p + 1, "n=p+1");
+    obs.class(match c.layout {
+        Layout::RowMajor => "layout_row_major",
+        Layout::ColMajor => "layout_col_major",
+        Layout::StridedRows => "layout_strided_rows_view",
+        Layout::StridedCols => "layout_strided_cols_view",
+        Layout::ReversedRows => "layout_reversed_rows_view",
+        Layout::ReversedCols => "layout_reversed_cols_view",
+    });
+    let unequal_means = c.offsets.iter().any(|o| Some(o) != c.offsets.first());
+    obs.class_if(c.layout == Layout::ColMajor && c.p >= 2 && unequal_means, "layout_col_major_unequal_column_means");
+    obs.class_if(c.dataset_view || !c.layout.is_owned(), "fit_DatasetView");
+    obs.class_if(!c.dataset_view && c.layout.is_owned(), "fit_Dataset_owned");
 }
 
 pub fn check_pca(c: &Case, obs: &mut Obs) {
@@ -115,7 +170,13 @@ pub fn check_pca(c: &Case, obs: &mut Obs) {
     classify(c, obs);
     let x = build_x(c);
     let xa = to_array(&x, n, p);
-    let ds = DatasetBase::from(xa.clone());
+    let rec = Records::new(&x, n, p, c.layout);
+    if rec.view().dim() != (n, p) || rec.view() != xa {
+        // the harness' own layout construction must reproduce the matrix exactly
+        obs.fail("harness:layout", "layout construction does not reproduce the record matrix".to_string());
+        return;
+    }
+    let targets = Array1::from_shape_fn(n, |i| i as f64);
 
     // ---- reference -------------------------------------------------------------------------
     let mu = col_means(&x);
@@ -157,7 +218,12 @@ pub fn check_pca(c: &Case, obs: &mut Obs) {
     // obligations that do not depend on the eigen-solver are judged there.
     let in_range = lam[k - 1] >= RANGE_MIN * lam1;
     obs.class_if(!in_range, "beyond_singular_ratio_1e3");
-    let model = match vengine::guard(|| Pca::params(k).whiten(c.whiten).fit(&ds)) {
+    // owned `Dataset` or `DatasetView` (record view + target view), records in the case's layout
+    let fitted = vengine::guard(|| match (rec.owned(), c.dataset_view) {
+        (Some(a), false) => Pca::params(k).whiten(c.whiten).fit(&DatasetBase::new(a.clone(), targets.clone())),
+        _ => Pca::params(k).whiten(c.whiten).fit(&DatasetBase::new(rec.view(), targets.view())),
+    });
+    let model = match fitted {
         Err(m) => {
             if !in_range && m.contains("NaN values in array") {
                 obs.skip("beyond_singular_ratio_1e3:fit_panic_nan");
@@ -357,7 +423,12 @@ pub fn check_pca(c: &Case, obs: &mut Obs) {
     // ---- λ₁-scaled optimality obligations ------------------------------------------------------
     // (sigma_j^2/(n-1) = λ_j, span = leading eigenspace, retained variance >= top-k sum and >= random frames).
     let mut optimal: Vec<(&'static str, String)> = vec![];
+    // largest deviation of an optimality obligation in units of its own tolerance
+    let mut excess = 0.0f64;
     if spectral {
+        for j in 0..kk {
+            excess = excess.max((l[j] - lam[j]).abs() / (TAU * lam1));
+        }
         for j in 0..kk {
             if (l[j] - lam[j]).abs() > TAU * lam1 {
                 optimal.push((
@@ -371,6 +442,7 @@ pub fn check_pca(c: &Case, obs: &mut Obs) {
             let lead: Mat = evecs.iter().take(k).cloned().collect();
             let d = projector_diff(&dirs, &lead, p);
             let bound = if k == p { TAU * (p as f64) } else { 5.0 * TAU * lam1 / gap };
+            excess = excess.max(d / bound);
             if !(d <= bound) {
                 optimal.push((
                     "pca:subspace",
@@ -380,6 +452,7 @@ pub fn check_pca(c: &Case, obs: &mut Obs) {
         }
         let kept = retained(&dirs, &cov);
         let top: f64 = lam.iter().take(kk).sum();
+        excess = excess.max((top - kept) / (TAU * lam1));
         if !(kept >= top - TAU * lam1) {
             optimal.push(("pca:retained-variance", format!("components retain variance {kept}, the top-{kk} eigenvalues sum to {top}")));
         }
@@ -391,6 +464,7 @@ pub fn check_pca(c: &Case, obs: &mut Obs) {
                 continue;
             }
             let r = retained(&frame, &cov);
+            excess = excess.max((r - kept) / (TAU * lam1));
             if !(kept >= r - TAU * lam1) {
                 optimal.push((
                     "pca:beaten-by-random-frame",
@@ -420,6 +494,12 @@ pub fn check_pca(c: &Case, obs: &mut Obs) {
             // whatever else is wrong with this answer (sigma vs. variance along the component, orthogonality) is a
             // consequence of the same breakdown
             spectral = false;
+        } else if resid_own > RESID_MAX && ritz_like && mismatch <= RESID_MAX && sorted && excess <= NOT_CONVERGED_SLACK {
+            // LOBPCG inside its own domain (5k <= p) stopped at its iteration limit (2n) with a component that the
+            // independent residual shows is not converged, the answer is a genuine set of Ritz pairs and misses the
+            // lambda_1-scaled tolerance by less than a factor NOT_CONVERGED_SLACK: an unconverged iterative solve,
+            // counted and not judged (DESIGN §7). Anything further off is reported.
+            obs.skip("lobpcg_stopped_at_iteration_limit_marginally_unconverged");
         } else {
             for (sig, msg) in optimal.drain(..) {
                 obs.fail(sig, msg);
@@ -444,12 +524,19 @@ pub fn check_pca(c: &Case, obs: &mut Obs) {
     }
 
     // ---- scores: predict, transform, reference product ---------------------------------------
-    let z_pred = match obs.call("predict", || model.predict(&xa)) {
+    // main calls: records in the case's layout (owned array or view, as for fit)
+    let z_pred = match obs.call("predict", || match rec.owned() {
+        Some(a) if !c.dataset_view => model.predict(a),
+        _ => model.predict(&rec.view()),
+    }) {
         Some(z) => z,
         None => return,
     };
-    let z_tr = match obs.call("transform", || model.transform(DatasetBase::from(xa.clone()))) {
-        Some(d) => d.records,
+    let z_tr = match obs.call("transform", || match rec.owned() {
+        Some(a) if !c.dataset_view => model.transform(DatasetBase::from(a.clone())).records,
+        _ => model.transform(DatasetBase::from(rec.view())).records,
+    }) {
+        Some(d) => d,
         None => return,
     };
     if !obs.ensure(z_pred.dim() == (n, kk) && z_tr.dim() == (n, kk), "pca:score-shape", || {
@@ -471,6 +558,50 @@ pub fn check_pca(c: &Case, obs: &mut Obs) {
                 format!("score[{i}][{j}] = {}, (x - mean)·component = {v}", z[i][j])
             }) {
                 break 'scores;
+            }
+        }
+    }
+    // the same query matrix in every other layout must give the same scores (other summation order allowed)
+    if z_pred.dim() == (n, kk) {
+        for lay in Layout::ALL {
+            if lay == c.layout {
+                continue;
+            }
+            let q = Records::new(&x, n, p, lay);
+            let zq = match obs.call("predict", || match q.owned() {
+                Some(a) => model.predict(a),
+                None => model.predict(&q.view()),
+            }) {
+                Some(z) => z,
+                None => break,
+            };
+            let zt = match obs.call("transform", || model.transform(DatasetBase::from(q.view())).records) {
+                Some(z) => z,
+                None => break,
+            };
+            if !obs.ensure(zq.dim() == (n, kk) && zt.dim() == (n, kk), "pca:score-shape", || {
+                format!("query layout {:?}: predict gives {:?}, transform {:?}", lay, zq.dim(), zt.dim())
+            }) {
+                break;
+            }
+            let mut worst: Option<(usize, usize, f64, f64)> = None;
+            for i in 0..n {
+                for j in 0..kk {
+                    let scale: f64 = (0..p).map(|t| (x[i][t].abs() + mu[t].abs()) * comps[j][t].abs()).sum();
+                    let tol = FORMULA_EPS * scale + 1e-300;
+                    for got in [zq[(i, j)], zt[(i, j)]] {
+                        if (got - z[i][j]).abs() > tol && worst.is_none() {
+                            worst = Some((i, j, got, z[i][j]));
+                        }
+                    }
+                }
+            }
+            if let Some((i, j, got, want)) = worst {
+                obs.fail(
+                    "pca:predict-layout",
+                    format!("score[{i}][{j}] of the same records is {got} in layout {:?} but {want} in layout {:?}", lay, c.layout),
+                );
+                break;
             }
         }
     }
@@ -668,7 +799,8 @@ pub fn property() -> Property {
         rule: "cases = (p 1..=8 [4 of 5] or 10..=16 [1 of 5: the only place where an embedding size >= 2 has 5k <= p], n (max(p+1,5))..=80, embedding size 1..=p \
                with k=1 and k=p over-weighted (p>=10: also 2..=p/5), whitening on/off, shape in {isotropic, rotated anisotropic with population singular ratio \
                <= 10^2.7, low-rank signal + noise 2e-3..1e-1 of the top signal singular value, columns scaled by 10^(-2.5..0)}, column offsets {none, |o|<=10, \
-               |o|<=1000}, global scale 10^{0,1,2}); the record matrix is derived deterministically from generated gaussians. Reference = two-pass covariance + \
+               |o|<=1000}, global scale 10^{0,1,2}, memory layout of the records given to fit/predict/transform in {row-major owned 3, column-major owned 3, \
+               every-2nd-row view, every-2nd-column view, reversed-rows view, reversed-columns view 1 each}, fit on Dataset (owned) or DatasetView); the record matrix is derived deterministically from generated gaussians. Reference = two-pass covariance + \
                own Jacobi eigen-decomposition. Non-trivial = (k < p with spectral gap at k > 1e-3*lambda_1) or k = 1 or whitening on; distinct = distinct \
                canonical JSON of the case. The error class (empty data, k = 0, k > p, with valid neighbours) is enumerated.",
         assumptions: vec![
@@ -679,16 +811,28 @@ pub fn property() -> Property {
             "explained-variance ratios only have to be finite, >= 0, not all zero and proportional to sigma_j^2 (any positive common factor)".into(),
             "inverse_transform(transform(X)) is required to be the orthogonal projection about the mean for whitened models too (the statement quantifies over whitening on/off; DESIGN restricted it to un-whitened models)".into(),
             format!("design domain singular ratio <= 1e3: when lambda_k < {RANGE_MIN:e}*lambda_1 (sampling fluctuation, n close to p) only the solver-independent obligations are judged (class beyond_singular_ratio_1e3); data with (n-1)*lambda_1 < {SCALE_MIN:e} (reachable only by shrinking) is not judged"),
-            "PCA exposes no convergence flag, so no run is skipped as unconverged: every obligation is evaluated on whatever fit returns".into(),
+            format!("PCA exposes no convergence flag; every obligation is evaluated on whatever fit returns, with one exception: outside 5k > p, a result that the independent residual shows unconverged on a component's own scale, that is a genuine set of Ritz pairs and misses the lambda_1-scaled optimality tolerances by at most a factor {NOT_CONVERGED_SLACK} is counted as not judged (LOBPCG stopped at its iteration limit 2n)"),
             format!("inside 5k > p (LOBPCG block not small against the dimension) the observed faces of the solver breakdown carry their own signatures pca:solver-breakdown:* (known findings), each recognised from reference quantities: not-leading-eigenpairs (a lambda_1-scaled optimality obligation fails), inconsistent-components (a component is no eigenvector within {RESID_MAX:e} of its own variance and the answer is no set of Ritz pairs), eigenpairs-misassigned (eigenvectors and eigenvalues, wrongly paired / not leading), unnormalised-component; for such a case the remaining solver-dependent obligations are consequences and are not evaluated. Outside 5k > p (k = 1 with p >= 5, k >= 2 with p >= 10) every obligation fails under its own name"),
             "a panic of fit with linfa-linalg's message `NaN values in array` (eigh.rs) is signature pca:solver-breakdown:nan-panic, any other panic is panic:fit".into(),
             "exactly k components are expected inside the design domain (the solver's rank cut-off pinned by test_explained_variance_cutoff is far below it)".into(),
+            "layouts: the fitted model is judged by the same obligations whatever the layout; predict / transform of the same records in each of the other five layouts must equal the main scores within the formula tolerance (signature pca:predict-layout)".into(),
             "trusted base: ndarray, vengine::num::{covariance, jacobi_eigh, col_means}".into(),
         ],
         subs: vec![
-            prop_sub("pca", 60_000, 1_200_000, case_strategy, check_pca)
+            prop_sub("pca", 240_000, 2_400_000, case_strategy, check_pca)
                 .chunks(16)
-                .require(&["judged_spectral", "judged_spectral_k<p_clear_gap", "judged_spectral_5k<=p", "whiten", "k=1", "k=p", "k>=2_and_5k<=p"]),
+                .require(&[
+                    "judged_spectral",
+                    "judged_spectral_k<p_clear_gap",
+                    "judged_spectral_5k<=p",
+                    "whiten",
+                    "k=1",
+                    "k=p",
+                    "k>=2_and_5k<=p",
+                    "layout_col_major",
+                    "layout_col_major_unequal_column_means",
+                    "fit_DatasetView",
+                ]),
             enum_sub("errors", |t: Tier| err_cases(t), check_errors).chunks(2),
         ],
     }
